@@ -90,12 +90,22 @@ fn check_text(text: &str) -> Option<String> {
 }
 
 // ---- symbol ranges (document_symbols.rs, cut verbatim into docsym.rs; executed, not proved) ----------------------
-const CODE_ATOMS: [&str; 40] = [
+const CODE_ATOMS: [&str; 107] = [
     "fn f() {}", "fn g(a: Int64): Int64 { a }", "class A { x: Int64, y: Bool }", "class B", "struct S(Int64, Bool)", "struct P { a: Int64 }",
     "enum E { A, B(Int64), C { v: Int64 } }", "trait T { fn m(); fn n(): Int64; }", "impl T for A { fn m() {} fn n(): Int64 { 1 } }",
     "impl A { fn q() {} static fn r() {} }", "mod m { fn h() {} class Inner { z: Int64 } }", "const K: Int64 = 1;", "let G: Int64 = 1;",
     "type Al = Int64;", "use std::string::String;", "extern fn e();", "@Test fn t() {}", "pub", "fn", "class", "{", "}", "(", ")", ";", ":",
     "fn é() {}", "class Ü😀 { ö: Int64 }", "// c 😀\n", "/* a\nb */", " ", "\n", "\r\n", "\r", "\t", "fn a()\r\n{\r\n}\r\n", "enum", "trait X {", "impl", "\u{e0100}",
+    // the same names again, as other kinds (shadowing of every kind by every kind)
+    "class f", "struct f(Int64)", "enum f { X }", "trait f {}", "const f: Int64 = 1;", "let f: Int64 = 1;", "mod f {}", "type f = Int64;", "fn A() {}", "fn K() {}", "fn G() {}", "fn Al() {}", "fn m() {}", "fn E() {}", "fn T() {}", "fn S() {}",
+    // members that repeat, odd members, nesting
+    "class D { x: Int64, x: Bool }", "struct Q { a: Int64, a: Int64 }", "enum R { A, A }", "enum V { W { v: Int64, v: Bool } }", "enum Z {}", "trait U { fn m(); fn m(); }", "trait W { type X; type X; const C: Int64; }",
+    "impl A { fn q() {} fn q() {} }", "impl T for A { type X = Int64; }", "impl[T] A { fn z(t: T) {} }", "fn h[T, T](t: T) {}", "class L[X, X]", "mod m { mod m { mod m { fn deep() {} } } }", "mod n;", "mod m { use super::f; }",
+    "use self::m::h;", "use std::{string, collections::{HashMap, Vec}};", "use foo::bar as baz;", "use package::x;", "pub(crate) fn vis() {}", "pub pub fn pp() {}", "static fn top() {}", "@Optimize @Test fn o() {}", "@internal class I", "@internal fn ifn();",
+    "extern \"C\" fn ec();", "let mut M: Int64 = 1;", "const: Int64 = 1;", "fn () {}", "class {}", "struct ()", "enum { A }", "trait {}", "impl {}", "impl for A {}", "type = Int64;", "fn w(): { }", "fn x(a, b) {}", "fn y(a: ) {}",
+    // types that lose a part to a parse error
+    "fn qa(a: [A as]::X) {}", "fn qb(a: [as T]::X) {}", "fn qc(a: [A as T]::) {}", "fn qd(a: [A as T]::X) {}", "fn qe(): (Int64, ) {}", "fn qf(a: (Int64): ) {}", "fn qg(a: ref) {}", "fn qh(a: A[) {}",
+    "[", "]", "as", "::",
 ];
 fn gen_code(rng: &mut Rng, n: usize) -> String {
     let mut s = String::new();
